@@ -159,7 +159,7 @@ func c18Body(s *simkit.Sim, rc *simkit.RunCtx) {
 	// ---- generated identifiers ----
 	ncases := 3 + s.D.Decide("cases", 5)
 	shapes := []string{"domain", "domain", "domain-port", "domain-path", "domain-port-path", "mixed-case", "encoded-segment",
-		"ipv4", "ipv6", "user-info", "encoded-slash-in-host", "encoded-query-in-host", "encoded-fragment-in-host"}
+		"ipv4", "ipv6", "ipv4-port", "ipv6-port", "user-info", "user-info-port", "encoded-slash-in-host", "encoded-query-in-host", "encoded-fragment-in-host"}
 	servers := []string{"correct", "correct", "other-id", "redirect-other-host", "redirect-http", "redirect-same-host", "content-type-html", "status-500", "not-found"}
 	for ci := 0; ci < ncases && !s.Failed(); ci++ {
 		c := c18Case{kind: shapes[s.D.Decide("shape", len(shapes))], server: servers[s.D.Decide("server", len(servers))]}
@@ -191,6 +191,12 @@ func c18Body(s *simkit.Sim, rc *simkit.RunCtx) {
 			hostPart, c.host = "10.1.2.3", ""
 		case "ipv6":
 			hostPart, c.host = "%5B%3A%3A1%5D", ""
+		case "ipv4-port":
+			hostPart, c.host = "10.1.2.3%3A8443", ""
+		case "ipv6-port":
+			hostPart, c.host = "%5B%3A%3A1%5D%3A8443", ""
+		case "user-info-port":
+			hostPart, c.host = "admin%40"+domain+"%3A8443", ""
 		case "user-info":
 			hostPart, c.host = "admin%40"+domain, ""
 		case "encoded-slash-in-host":
@@ -233,7 +239,7 @@ func c18Body(s *simkit.Sim, rc *simkit.RunCtx) {
 			}
 			return jsonResp(404, "text/plain", []byte("not found"), nil)
 		}
-		for _, h := range []string{c.host, strings.ToLower(c.host), domain, strings.ToLower(domain), "10.1.2.3", "[::1]", "admin@" + domain} {
+		for _, h := range []string{c.host, strings.ToLower(c.host), domain, strings.ToLower(domain), domain + ":8443", "10.1.2.3", "[::1]", "10.1.2.3:8443", "[::1]:8443", "admin@" + domain} {
 			if h != "" {
 				w.HTTP.Handle(h, handler)
 			}
